@@ -39,6 +39,15 @@ type Out struct {
 
 func num(v any) int64 { return int64(v.(float64)) }
 
+// a request context WITH A DEADLINE that costs no real time: Deadline() reports now + d, the
+// context stays alive during the call and is cancelled by the executor when the call has returned
+type deadlineCtx struct {
+	context.Context
+	at time.Time
+}
+
+func (c deadlineCtx) Deadline() (time.Time, bool) { return c.at, true }
+
 // go-zero caches one go-redis client (with its circuit breaker) per address for the life of the
 // process and the kernel hands a closed port out again: a server that has seen failing commands
 // stays open until the run is over, so that no later case inherits its breaker statistics.
@@ -123,7 +132,8 @@ func runCase(c Case) (out Out) {
 		out.IDs = append(out.IDs, reflect.ValueOf(locks[i]).Elem().FieldByName("id").String())
 	}
 	// kind: "" (Acquire/Release) | "ctx" (Background) | "ctx:live" (a request context, cancelled when the
-	// call has returned) | "ctx:cancelled" (already cancelled: the command is never sent)
+	// call has returned) | "ctx:cancelled" (already cancelled: the command is never sent) |
+	// "ctx:dl:<ms>" (a live request context whose deadline is <ms> away)
 	call := func(i int64, rel bool, kind string) []bool {
 		var ok bool
 		var err error
@@ -134,6 +144,12 @@ func runCase(c Case) (out Out) {
 		case "ctx:cancelled":
 			ctx, done = context.WithCancel(context.Background())
 			done()
+		default:
+			if strings.HasPrefix(kind, "ctx:dl:") { // "ctx:dl:<ms until the deadline>"
+				ms, _ := strconv.ParseInt(kind[7:], 10, 64)
+				inner, cancel := context.WithCancel(context.Background())
+				ctx, done = deadlineCtx{inner, time.Now().Add(time.Duration(ms) * time.Millisecond)}, cancel
+			}
 		}
 		switch {
 		case rel && kind != "":
